@@ -359,6 +359,10 @@ def r4(ctx, modname):
         n, c = waits[0]
         what = c.args[0] if c.args else next((k.value for k in c.keywords if k.arg in ("fut", "aw")), None)
         to = next((k.value for k in c.keywords if k.arg == "timeout"), c.args[1] if len(c.args) > 1 else None)
+        if isinstance(what, ast.Name):
+            u_ = f.unique_def_value(what.id, n)  # an explaining local for the coroutine (created just before, awaited here)
+            if u_ is not None and u_[1] is not None and not f.awaits_between(u_[0], n):
+                what = u_[1]
         ctx.check(what is not None and norm_text(what) == "self._initialised_event.wait()", R, f"{gen}:init:waits-for-event", m, c, "waits for self._initialised_event.wait()", norm_text(what) if what is not None else "")
         tv = ctx.repo.try_fold(m, to) if to is not None else None
         ctx.check(tv == 5.0, R, f"{gen}:init:timeout", m, c, "timeout=5.0", repr(tv))
